@@ -112,7 +112,8 @@ inductive Reach : Plane.Plane → List PObj → Prop
       Reach (Plane.add p o) (L ++ [o])
   | remove {p L} (o : PObj) : Reach p L → o ∈ L → Reach (Plane.remove p o).1 (L.erase o)
 
-/-- The representation invariant tying the three fields of `Plane` to the live list. -/
+/-- The representation invariant tying the fields of `Plane` to the live list: a live object is filed
+either under every cell of its box (when those are at most `MAXCELLS`) or, once, in the overflow list. -/
 structure Inv (p : Plane.Plane) (L : List PObj) : Prop where
   gs : 0 < p.gridsize
   bx : p.x0 ≤ p.x1
@@ -122,14 +123,21 @@ structure Inv (p : Plane.Plane) (L : List PObj) : Prop where
   objs_sub : ∀ i ∈ p.objs, ∃ o ∈ p.seq, o.id = i
   live : Plane.iter p = L
   wf : ∀ o ∈ p.seq, WfRect (bboxOf o)
-  grid : ∀ k o, List.count (k, o) p.grid = if o ∈ L then List.count k (getrange p (bboxOf o)) else 0
+  grid : ∀ k o, List.count (k, o) p.grid =
+    if o ∈ L ∧ cells? p (bboxOf o) ≠ none then List.count k (getrange p (bboxOf o)) else 0
+  big : ∀ o, List.count o p.big = if o ∈ L ∧ cells? p (bboxOf o) = none then 1 else 0
 
 theorem getrange_add (p : Plane.Plane) (o : PObj) (b : Rect) :
-    getrange (Plane.add p o) b = getrange p b := rfl
+    getrange (Plane.add p o) b = getrange p b := getrange_congr (add_bounds p o) b
 
 theorem getrange_remove (p : Plane.Plane) (o : PObj) (b : Rect) :
-    getrange (Plane.remove p o).1 b = getrange p b := by
-  unfold Plane.remove; simp only; split <;> rfl
+    getrange (Plane.remove p o).1 b = getrange p b := getrange_congr (remove_bounds p o) b
+
+theorem cells_add (p : Plane.Plane) (o : PObj) (b : Rect) :
+    cells? (Plane.add p o) b = cells? p b := cells?_congr (add_bounds p o) b
+
+theorem cells_remove (p : Plane.Plane) (o : PObj) (b : Rect) :
+    cells? (Plane.remove p o).1 b = cells? p b := cells?_congr (remove_bounds p o) b
 
 theorem inv_of_reach {p L} (h : Reach p L) : Inv p L := by
   induction h with
@@ -138,7 +146,7 @@ theorem inv_of_reach {p L} (h : Reach p L) : Inv p L := by
     exact { gs := hgs, bx := hb.1, by' := hb.2, ids := by simp [Plane.init],
             objs_nodup := by simp [Plane.init], objs_sub := by simp [Plane.init],
             live := by simp [Plane.init, Plane.iter], wf := by simp [Plane.init],
-            grid := by simp [Plane.init] }
+            grid := by simp [Plane.init], big := by simp [Plane.init] }
   | @add p L o _ hfresh hwf ih =>
     have hnot : o.id ∉ p.objs := fun hmem => by
       obtain ⟨o', ho', hid⟩ := ih.objs_sub _ hmem
@@ -147,25 +155,31 @@ theorem inv_of_reach {p L} (h : Reach p L) : Inv p L := by
       rw [← ih.live] at hmem
       simp only [Plane.iter, List.mem_filter] at hmem
       exact hfresh o hmem.1 rfl
-    refine { gs := ih.gs, bx := ih.bx, by' := ih.by', ids := ?_, objs_nodup := ?_, objs_sub := ?_,
-             live := ?_, wf := ?_, grid := ?_ }
-    · simp only [Plane.add, List.pairwise_append, List.pairwise_cons, List.not_mem_nil,
+    have hb := add_bounds p o
+    refine { gs := by rw [hb.1]; exact ih.gs, bx := by rw [hb.2.1, hb.2.2.2.1]; exact ih.bx,
+             by' := by rw [hb.2.2.1, hb.2.2.2.2]; exact ih.by', ids := ?_, objs_nodup := ?_, objs_sub := ?_,
+             live := ?_, wf := ?_, grid := ?_, big := ?_ }
+    · rw [add_seq]
+      simp only [List.pairwise_append, List.pairwise_cons, List.not_mem_nil,
         List.Pairwise.nil, List.mem_cons, or_false]
       exact ⟨ih.ids, ⟨fun _ h => h.elim, trivial⟩, fun a ha b hb => hb ▸ hfresh a ha⟩
-    · simp only [Plane.add, hnot, if_false]
+    · rw [add_objs]
+      simp only [hnot, if_false]
       rw [List.nodup_append]
       exact ⟨ih.objs_nodup, by simp, fun a ha b hb => by
         simp only [List.mem_cons, List.not_mem_nil, or_false] at hb; subst hb
         exact fun h => hnot (h ▸ ha)⟩
     · intro i hi
-      simp only [Plane.add, hnot, if_false, List.mem_append, List.mem_cons, List.not_mem_nil,
+      rw [add_objs] at hi
+      rw [add_seq]
+      simp only [hnot, if_false, List.mem_append, List.mem_cons, List.not_mem_nil,
         or_false] at hi ⊢
       rcases hi with hi | rfl
       · obtain ⟨o', ho', hid⟩ := ih.objs_sub i hi
         exact ⟨o', Or.inl ho', hid⟩
       · exact ⟨o, Or.inr rfl, rfl⟩
     · rw [← ih.live]
-      simp only [Plane.add, Plane.iter, hnot, if_false, List.filter_append, List.mem_append,
+      simp only [Plane.iter, add_seq, add_objs, hnot, if_false, List.filter_append, List.mem_append,
         List.mem_cons, List.not_mem_nil, or_false]
       congr 1
       · apply List.filter_congr
@@ -174,18 +188,39 @@ theorem inv_of_reach {p L} (h : Reach p L) : Inv p L := by
         simp [this]
       · simp
     · intro o' ho'
-      simp only [Plane.add, List.mem_append, List.mem_cons, List.not_mem_nil, or_false] at ho'
+      rw [add_seq] at ho'
+      simp only [List.mem_append, List.mem_cons, List.not_mem_nil, or_false] at ho'
       rcases ho' with h | rfl
       · exact ih.wf o' h
       · exact hwf
     · intro k o'
-      show List.count (k, o') (Plane.add p o).grid = _
-      simp only [getrange_add]
-      simp only [Plane.add, foldl_append_pairs, List.count_append, count_map_pair, ih.grid,
-        List.mem_append, List.mem_cons, List.not_mem_nil, or_false]
-      by_cases h : o' = o
-      · subst h; simp [hoL]
-      · simp [h]
+      simp only [getrange_add, cells_add, List.mem_append, List.mem_cons, List.not_mem_nil, or_false]
+      cases hc : cells? p (bboxOf o) with
+      | none =>
+        rw [(add_big p o hc).1, ih.grid]
+        by_cases h : o' = o
+        · subst h; simp [hoL, hc]
+        · simp [h]
+      | some ks =>
+        have hks := (cells?_some hc).1
+        rw [(add_small p o ks hc).1, foldl_append_pairs, List.count_append, count_map_pair, ih.grid, hks]
+        by_cases h : o' = o
+        · subst h; simp [hoL, hc]
+        · simp [h]
+    · intro o'
+      simp only [cells_add, List.mem_append, List.mem_cons, List.not_mem_nil, or_false]
+      cases hc : cells? p (bboxOf o) with
+      | none =>
+        rw [(add_big p o hc).2, List.count_append, ih.big]
+        by_cases h : o' = o
+        · subst h; simp [hoL, hc]
+        · have : (o == o') = false := by simp [Ne.symm h]
+          simp [h, List.count_cons, this]
+      | some ks =>
+        rw [(add_small p o ks hc).2, ih.big]
+        by_cases h : o' = o
+        · subst h; simp [hoL, hc]
+        · simp [h]
   | @remove p L o _ hmem ih =>
     have hlive : o ∈ Plane.iter p := ih.live ▸ hmem
     have hseq : o ∈ p.seq := by
@@ -197,18 +232,18 @@ theorem inv_of_reach {p L} (h : Reach p L) : Inv p L := by
       unfold Plane.iter
       apply List.Pairwise.filter
       exact ih.ids.imp (fun hne heq => hne (congrArg PObj.id heq))
-    refine { gs := ?_, bx := ?_, by' := ?_, ids := ?_, objs_nodup := ?_, objs_sub := ?_,
-             live := ?_, wf := ?_, grid := ?_ }
-    · simp only [Plane.remove, hobj, if_true]; exact ih.gs
-    · simp only [Plane.remove, hobj, if_true]; exact ih.bx
-    · simp only [Plane.remove, hobj, if_true]; exact ih.by'
-    · simp only [Plane.remove, hobj, if_true]; exact ih.ids
-    · simp only [Plane.remove, hobj, if_true]; exact ih.objs_nodup.erase _
+    have hb := remove_bounds p o
+    refine { gs := by rw [hb.1]; exact ih.gs, bx := by rw [hb.2.1, hb.2.2.2.1]; exact ih.bx,
+             by' := by rw [hb.2.2.1, hb.2.2.2.2]; exact ih.by', ids := ?_, objs_nodup := ?_, objs_sub := ?_,
+             live := ?_, wf := ?_, grid := ?_, big := ?_ }
+    · rw [remove_seq]; exact ih.ids
+    · rw [remove_objs]; exact ih.objs_nodup.erase _
     · intro i hi
-      simp only [Plane.remove, hobj, if_true] at hi ⊢
+      rw [remove_objs] at hi
+      rw [remove_seq]
       exact ih.objs_sub i (List.mem_of_mem_erase hi)
     · rw [hL.erase_eq_filter, ← ih.live]
-      simp only [Plane.remove, hobj, if_true, Plane.iter, List.filter_filter]
+      simp only [Plane.iter, remove_seq, remove_objs, List.filter_filter]
       apply List.filter_congr
       intro a ha
       have hiff : a.id ∈ p.objs.erase o.id ↔ a.id ≠ o.id ∧ a.id ∈ p.objs :=
@@ -220,46 +255,95 @@ theorem inv_of_reach {p L} (h : Reach p L) : Inv p L := by
           have := eq_of_id_eq ih.ids ha hseq
           exact hao (this heq)
         simp [hiff, hid, hao]
-    · simp only [Plane.remove, hobj, if_true]; exact ih.wf
+    · rw [remove_seq]; exact ih.wf
     · intro k o'
-      simp only [getrange_remove]
-      have hg : (Plane.remove p o).1.grid =
-          (getrange p (bboxOf o)).foldl (fun g k => g.erase (k, o)) p.grid := by
-        simp only [Plane.remove, hobj, if_true]
-      rw [hg, count_foldl_erase, count_map_pair, ih.grid]
+      simp only [getrange_remove, cells_remove]
       have hiff : o' ∈ L.erase o ↔ o' ≠ o ∧ o' ∈ L := hL.mem_erase_iff
-      by_cases h : o' = o
-      · subst h; simp [hiff, hmem]
-      · simp [h, hiff]
+      cases hc : cells? p (bboxOf o) with
+      | none =>
+        rw [(remove_big p o hc).1, ih.grid]
+        by_cases h : o' = o
+        · subst h; simp [hiff, hc]
+        · simp [h, hiff]
+      | some ks =>
+        have hks := (cells?_some hc).1
+        rw [(remove_small p o ks hc).1, count_foldl_erase, count_map_pair, ih.grid, hks]
+        by_cases h : o' = o
+        · subst h; simp [hiff, hmem, hc]
+        · simp [h, hiff]
+    · intro o'
+      simp only [cells_remove]
+      have hiff : o' ∈ L.erase o ↔ o' ≠ o ∧ o' ∈ L := hL.mem_erase_iff
+      cases hc : cells? p (bboxOf o) with
+      | none =>
+        rw [(remove_big p o hc).2, List.count_erase, ih.big]
+        by_cases h : o' = o
+        · subst h; simp [hiff, hmem, hc]
+        · have : (o == o') = false := by simp [Ne.symm h]
+          simp [h, hiff, this]
+      | some ks =>
+        rw [(remove_small p o ks hc).2, ih.big]
+        by_cases h : o' = o
+        · subst h; simp [hiff, hc]
+        · simp [h, hiff]
 
-/-- **find = brute force.**  After any sequence of insertions and removals, for every
-well-formed query box, `find` returns exactly the live objects that properly overlap it,
-each once. -/
+/-- **find = brute force.**  After any sequence of insertions and removals - objects in the overflow list
+included -, for every well-formed query box - also one that covers more than `MAXCELLS` cells -, `find`
+returns exactly the live objects that properly overlap it, each once. -/
 theorem plane_find {p L} (h : Reach p L) (q : Rect) (hq : WfRect q) :
     (∀ o, o ∈ Plane.find p q ↔ (o ∈ L ∧ overlaps o q = true)) ∧ (Plane.find p q).Nodup := by
   have inv := inv_of_reach h
   refine ⟨fun o => ?_, nodup_find_of_scan (List.Pairwise.filter _ (nodup_dedup _))⟩
   rw [mem_find]
-  simp only [Plane.findScan, List.mem_filter, mem_dedup, List.mem_flatMap, mem_cell]
-  constructor
-  · rintro ⟨⟨k, _, hk⟩, hov⟩
-    refine ⟨?_, hov⟩
-    have hc : 0 < List.count (k, o) p.grid := List.count_pos_iff.mpr hk
-    rw [inv.grid] at hc
-    by_cases hoL : o ∈ L
-    · exact hoL
-    · simp [hoL] at hc
-  · rintro ⟨hoL, hov⟩
-    refine ⟨?_, hov⟩
-    have hseq : o ∈ p.seq := by
-      have : o ∈ Plane.iter p := inv.live ▸ hoL
-      simp only [Plane.iter, List.mem_filter] at this; exact this.1
-    obtain ⟨k, hk1, hk2⟩ := overlap_share_cell inv.gs inv.bx inv.by' (inv.wf o hseq) hq hov
-    refine ⟨k, hk2, ?_⟩
-    apply List.count_pos_iff.mp
-    rw [inv.grid]
-    simp only [hoL, if_true]
-    exact List.count_pos_iff.mpr hk1
+  simp only [Plane.findScan, List.mem_filter, mem_dedup]
+  cases hcq : cells? p q with
+  | none =>
+    simp only [inv.live]
+  | some ks =>
+    have hks := (cells?_some hcq).1
+    simp only [List.mem_append, List.mem_flatMap, mem_cell]
+    constructor
+    · rintro ⟨(⟨k, _, hk⟩ | hbig), hov⟩
+      · refine ⟨?_, hov⟩
+        have hc : 0 < List.count (k, o) p.grid := List.count_pos_iff.mpr hk
+        rw [inv.grid] at hc
+        by_cases hoL : o ∈ L
+        · exact hoL
+        · simp [hoL] at hc
+      · refine ⟨?_, hov⟩
+        have hc : 0 < List.count o p.big := List.count_pos_iff.mpr hbig
+        rw [inv.big] at hc
+        by_cases hoL : o ∈ L
+        · exact hoL
+        · simp [hoL] at hc
+    · rintro ⟨hoL, hov⟩
+      refine ⟨?_, hov⟩
+      have hseq : o ∈ p.seq := by
+        have : o ∈ Plane.iter p := inv.live ▸ hoL
+        simp only [Plane.iter, List.mem_filter] at this; exact this.1
+      cases hco : cells? p (bboxOf o) with
+      | none =>
+        right
+        apply List.count_pos_iff.mp
+        rw [inv.big]
+        simp [hoL, hco]
+      | some kso =>
+        left
+        obtain ⟨k, hk1, hk2⟩ := overlap_share_cell inv.gs inv.bx inv.by' (inv.wf o hseq) hq hov
+        refine ⟨k, by rw [hks]; exact hk2, ?_⟩
+        apply List.count_pos_iff.mp
+        rw [inv.grid]
+        simp only [hoL, hco, ne_eq, reduceCtorEq, not_false_eq_true, and_self, if_true]
+        exact List.count_pos_iff.mpr hk1
+
+/-- **Bounded work per operation.**  `add`, `remove` and `find` enumerate at most `MAXCELLS` (= 1024) grid
+cells, for every plane, every box and every query - however large the coordinates (a form scaled by 1e30,
+a page box of astronomic size): the cell count is computed from the range bounds, and a box with more cells
+goes to / is served from the overflow list.  What remains is work linear in the number of objects. -/
+theorem plane_cells_bounded (p : Plane.Plane) (b : Rect) :
+    cellsTouched p b ≤ PLANE_MAXCELLS ∧ (∀ ks, cells? p b = some ks → ks = getrange p b) ∧
+      (getrange p b).length = cellCount p b :=
+  ⟨cellsTouched_le p b, fun _ h => (cells?_some h).1, length_getrange p b⟩
 
 /-- `findSpec` is the brute-force search over the live objects; `find` agrees with it. -/
 theorem plane_find_eq_bruteforce {p L} (h : Reach p L) (q : Rect) (hq : WfRect q) (o : PObj) :
